@@ -15,7 +15,6 @@ import (
 	"strconv"
 	"strings"
 	"sync"
-	"sync/atomic"
 
 	"github.com/gorilla/websocket"
 	"verif/harness/lib/evid"
@@ -184,13 +183,13 @@ func openWS(t evid.TB, s *srv.Server, pl *plan, path string, exp *expectation, s
 	do := func(method, url, extra string) *rtspc.Response {
 		id, err := x.request(method, url, extra, "")
 		if err == nil {
-			waitFor(bound(), func() bool { return x.answered(id) || x.broken() })
+			waitFor(bound("ws"), func() bool { return x.answered(id) || x.broken() })
 		}
 		if o := x.sc.result(); o.Err != nil {
 			// the play dialogue itself is server output under the same grammar
 			if _, ok := o.Err.(*rtspc.FramingError); ok {
 				p.ws.Close()
-				atomic.StoreInt32(&sawViolation, 1)
+				sawViolation.Store("ws", true)
 				evid.Violation(t, "ws-grammar", map[string]any{"plan": pl, "during": method + " of the play dialogue"}, "ws (grammar): answering %s of the play dialogue: %v", method, o.Err)
 			}
 		}
